@@ -62,6 +62,59 @@ WITNESS = {
 }
 
 
+def _lossy_op_before(db, f, operand, ops, depth=0):
+    """backward walk from an operand through copies / casts / refs / aggregates (and closure captures into the parent
+    function); returns (op, line) of the first bit-dropping binary operation found, else None"""
+    from facts import op_place
+    from rules import flow
+    if operand is None or depth > 4:
+        return None
+    defs = lossy.defs_of(f)
+    work = [operand]
+    seen = set()
+    while work:
+        o = work.pop()
+        if isinstance(o, dict):
+            pl0 = op_place(o)
+            l = place_local(pl0) if pl0 is not None else None
+        else:
+            l = o
+        if l is None:
+            continue
+        if f.closure and l == 1 and isinstance(o, dict):
+            pl = op_place(o)
+            proj = [e for e in (pl.get("p") if isinstance(pl, dict) else []) if e != "*"]
+            if proj and isinstance(proj[0], list) and proj[0][0] == "f":
+                try:
+                    parent, po = flow.upvar_origin(db, f, int(proj[0][1]))
+                except ValueError:
+                    parent, po = None, None
+                if parent is not None and po is not None:
+                    r = _lossy_op_before(db, parent, po, ops, depth + 1)
+                    if r is not None:
+                        return r
+            continue
+        if l in seen:
+            continue
+        seen.add(l)
+        for (_, si, st) in defs.get(l, []):
+            if si == -1:
+                continue
+            r = st.get("r")
+            if r == "binop":
+                if st.get("op") in ops:
+                    return (st.get("op"), st.get("ln"))
+                work.append(st["a"])
+                work.append(st["b"])
+            elif r in ("use", "cast", "unop"):
+                work.append(st["o"])
+            elif r == "ref":
+                work.append({"cp": st["p"]} if isinstance(st["p"], dict) else st["p"])
+            elif r == "agg":
+                work.extend(st.get("ops", []))
+    return None
+
+
 def lossy_in_fn(db, rep, f, table, used_table):
     """R-LOSSY over one function: every narrowing integer cast whose value reaches a file sink must be discharged or audited.
     -> (casts inspected, write-primitive call sites)"""
@@ -143,6 +196,40 @@ def run(db, tier):
     rep.floor("write-primitive call sites", n_writes, 150)
     rep.extra["narrowing_casts_inspected"] = n_casts
     rep.extra["write_primitive_calls"] = n_writes
+    # ---------------- R-CHECKED-RAW: a checked conversion must see the value that was asked for
+    rep.rule("R-CHECKED-RAW", "in writer-reachable code an integer TryFrom/TryInto conversion (the range check of a file field) is applied to the value "
+                              "itself: a mask, shift, remainder or wrapping operation between the requested value and the check makes the check "
+                              "pass for values that do not fit")
+    LOSSY_OPS = {"BitAnd", "Shl", "Shr", "Rem", "ShlUnchecked", "ShrUnchecked"}
+    n_try = 0
+    for f in sorted(db.fns.values(), key=lambda f: (f.file, f.line)):
+        if f.gen:
+            continue
+        root = f.parent or f.id
+        if not (f.id in W or root in W):
+            continue
+        defs = None
+        k = 0
+        for bi, t in f.calls():
+            c = t.get("f", "")
+            if not (c.endswith("convert::TryFrom::try_from") or c.endswith("convert::TryInto::try_into")):
+                continue
+            ga = t.get("ga") or []
+            if not ga or not any(re.match(r"^(u|i)(8|16|32|64|size)$", g) for g in ga[:2]):
+                continue
+            n_try += 1
+            rep.site()
+            k += 1
+            if defs is None:
+                defs = lossy.defs_of(f)
+            lossy_op = _lossy_op_before(db, f, t["a"][0] if t.get("a") else None, LOSSY_OPS)
+            rep.check(lossy_op is None, "R-CHECKED-RAW", "%s|try_from-%d" % (f.id, k), "%s:%d" % (f.file, t["ln"]),
+                      "converts the value as requested (%s -> %s)" % (ga[1] if len(ga) > 1 else "?", ga[0]),
+                      "the operand of this range check was computed with %s (line %s): bits of the requested value are dropped before the check, so an out-of-range value is accepted and a different value is stored" % (lossy_op or ("?", "?")))
+    rep.floor("integer TryFrom/TryInto conversions in writer-reachable code", n_try, 5)
+    # ---------------- R-FILE-CODEC: leading fields of file structures
+    rep.rule("R-FILE-CODEC", "sibling reader/writer functions of file headers and table records read and write leading fields of the same widths (symbolic I/O paths)")
+    codec.file_codec(db, rep)
     # ---------------- R-CODEC: reader/writer agreement per instruction-header field
     rep.rule("R-CODEC", "reader and writer of an instruction format use the same on-disk type for each header field (bit-preserving sign changes excepted)")
     rep.rule("R-HEADER", "the bytes written before the argument blob add up to instr_header_size()")
